@@ -14,6 +14,7 @@ let () =
                (match m with
                 | "codec" -> M_codec.handle cmd args
                 | "db" -> M_db.handle cmd args
+                | "wal" -> M_wal.handle cmd args
                 | _ -> failwith ("unknown module " ^ m))
              | _ -> failwith "bad line"
            with
